@@ -238,6 +238,8 @@ struct Connecting {
     token: ConnectToken,
     start: Instant,
     seq_nr: SeqNr,
+    // The connection id we will receive on once the SYN-ACK arrives.
+    conn_id: ConnectionId,
     requester: ConnectRequest,
 }
 
@@ -252,6 +254,13 @@ struct ConnectingPerAddr {
 impl ConnectingPerAddr {
     fn is_empty(&self) -> bool {
         self.len == 0
+    }
+
+    fn has_conn_id(&self, conn_id: ConnectionId) -> bool {
+        self.slots
+            .iter()
+            .flatten()
+            .any(|c| c.conn_id == conn_id)
     }
 
     fn insert(&mut self, c: Connecting) -> bool {
@@ -456,8 +465,17 @@ impl<T: Transport, E: UtpEnvironment> Dispatcher<T, E> {
         Ok(())
     }
 
+    // Is there a pending outgoing connect to this address that will receive on this id?
+    fn is_connecting_with_id(&self, addr: SocketAddr, conn_id: ConnectionId) -> bool {
+        self.connecting
+            .get(&addr)
+            .is_some_and(|c| c.has_conn_id(conn_id))
+    }
+
     fn get_next_free_conn_id(&mut self, addr: SocketAddr) -> SeqNr {
-        while self.streams.contains_key(&(addr, self.next_connection_id)) {
+        while self.streams.contains_key(&(addr, self.next_connection_id))
+            || self.is_connecting_with_id(addr, self.next_connection_id)
+        {
             self.next_connection_id += 2;
         }
         self.next_connection_id
@@ -508,6 +526,7 @@ impl<T: Transport, E: UtpEnvironment> Dispatcher<T, E> {
                 }
                 let c = Connecting {
                     token,
+                    conn_id,
                     seq_nr: header.seq_nr,
                     requester: sender,
                     start: self.env.now(),
@@ -622,8 +641,12 @@ impl<T: Transport, E: UtpEnvironment> Dispatcher<T, E> {
         }
 
         let recv_key = (syn.remote, syn.header.connection_id + 1);
-        if self.streams.contains_key(&recv_key) {
-            debug!(?recv_key, "SYN clashes with an existing stream, ignoring");
+        if self.streams.contains_key(&recv_key) || self.is_connecting_with_id(recv_key.0, recv_key.1)
+        {
+            debug!(
+                ?recv_key,
+                "SYN clashes with an existing stream or a pending connect, ignoring"
+            );
             return MatchSynWithAccept::SynInvalid(accept);
         }
 
